@@ -10,8 +10,9 @@ from .tree import key, ASSIGN_OPS
 
 
 class Explorer:
-    def __init__(self, cfg, tracked, havoc_calls=None):
+    def __init__(self, cfg, tracked, havoc_calls=None, defs=None):
         self.cfg = cfg
+        self.defs = defs  # optional LocalDefs: a bool local that is defined once is evaluated through its initialiser
         self.tracked = list(tracked)  # keys
         self.index = {k: i for i, k in enumerate(self.tracked)}
         self.havoc_calls = havoc_calls or {}  # callee qn -> set of tracked keys it may write
@@ -84,6 +85,15 @@ class Explorer:
             if v == "U":
                 return None
             return (not v) if neg else v
+        if self.defs is not None and cond.k == "DeclRefExpr" and cond.get("dk") == "local":
+            init = self.defs.single_def(cond.get("d"))
+            if init is not None and getattr(self, "_depth", 0) < 5:
+                self._depth = getattr(self, "_depth", 0) + 1
+                try:
+                    r = self._eval(init, s)
+                finally:
+                    self._depth -= 1
+                return None if r is None else ((not r) if neg else r)
         # (x == literal) forms for tracked x
         if cond.k == "BinaryOperator" and cond.op in ("==", "!=") and len(cond.c) == 2:
             a, b = cond.c[0].strip(), cond.c[1].strip()
